@@ -32,6 +32,8 @@ func runC24(c *engine.Ctx) {
 	r2 := c.Rule("R2", "skip count = max(user value, NBlocksTraversed()); encoded under the do-not-send-first-blocks name; sent to the request's peer", 1)
 	r3 := c.Rule("R3", "each extension the requestor encodes uses the codec package the responder decodes that name with", 1)
 	r4 := c.Rule("R4", "responder send decision honours skip count and dedup", 1)
+	r5 := c.Rule("R5", "extension wiring on the responder: the dedup key is applied before the ignore list and skip count are recorded (C03.R6)", 2)
+	c03Extensions(c, r5)
 
 	ex := "requestmanager/executor"
 	missT := c.P.NamedType("", "RemoteMissingBlockErr")
